@@ -15,6 +15,7 @@ import (
 	"encoding/json"
 	"fmt"
 	"os"
+	"sort"
 	"strings"
 	"sync"
 
@@ -208,6 +209,9 @@ func Explore(r *ev.Run, engine string, scs []Scenario) {
 			items = append(items, item{sc: i, root: rt})
 		}
 	}
+	// Largest subtrees first (a deviation at an early step leaves the most steps to deviate
+	// at again); the shards take items round-robin, which then balances them.
+	sort.SliceStable(items, func(a, b int) bool { return len(items[a].root) < len(items[b].root) })
 	r.Set("conc_scenarios", len(scs))
 	r.Set("conc_work_items", len(items))
 	ev.ParallelRange(len(items), r.Seed, func(k int) {
